@@ -5,11 +5,13 @@
 package main
 
 import (
+	"context"
 	"fmt"
 	"os"
 	"os/exec"
 	"strconv"
 	"strings"
+	"time"
 	"unicode/utf8"
 
 	"github.com/ozontech/seq-db/conf"
@@ -410,46 +412,133 @@ func deepStrings(n int) []string {
 	}
 }
 
-// deepProbe: nesting far beyond what the Coq side evaluates; the real parsers run in a CHILD
-// process because exhausting the goroutine stack is a fatal error that recover() cannot catch
-func deepProbe(w *casefile.Writer, depth int) {
-	for _, target := range []string{"ParseQuery", "ParseSeqQL"} {
-		for _, shape := range []string{"paren", "not"} {
-			cmd := exec.Command(os.Args[0], "-deep", strconv.Itoa(depth), "-deep-target", target, "-deep-shape", shape, "-out", os.TempDir())
-			out, err := cmd.CombinedOutput()
-			w.Evals(1)
-			in := map[string]any{"query": fmt.Sprintf("%q repeated %d times followed by k:v (and the closing brackets)", map[string]string{"paren": "(", "not": "not "}[shape], depth),
-				"depth": depth, "target": target, "shape": shape}
-			switch {
-			case err == nil:
-				w.Count("deep:" + target + ":" + shape + ":returned")
-			case strings.Contains(string(out), "stack overflow") || strings.Contains(string(out), "goroutine stack exceeds"):
-				w.Count("deep:" + target + ":" + shape + ":stack-overflow")
-				w.Violate("fatal-stack-overflow:"+target, fmt.Sprintf("%s kills the process (fatal error: stack overflow, not recoverable) on %d nested %s", target, depth, shape), in)
-			default:
-				tail := string(out)
-				if len(tail) > 300 {
-					tail = tail[len(tail)-300:]
-				}
-				w.Violate("deep-probe-died:"+target, "child died: "+err.Error()+": "+tail, in)
-			}
-		}
+// modelMaxNesting: parser/query_parser.go maxNestingDepth as the MODEL has it (Lexer.v:
+// max_nesting_depth; every CNest case compares the two). The real constant is not imported on
+// purpose: the boundary cases below probe the real limit, so a removed or changed limit shows as a
+// failing input, not as a build failure.
+const modelMaxNesting = 10000
+
+func nestQuery(shape string, n int) string {
+	if shape == "not" {
+		return strings.Repeat("not ", n) + "k:v"
 	}
+	return strings.Repeat("(", n) + "k:v" + strings.Repeat(")", n)
 }
 
-// deepChild: executed in the child process
-func deepChild(depth int, target, shape string) {
-	q := strings.Repeat("(", depth) + "k:v" + strings.Repeat(")", depth)
-	if shape == "not" {
-		q = strings.Repeat("not ", depth) + "k:v"
-	}
+func runTarget(target, q string) error {
 	var err error
 	if target == "ParseSeqQL" {
 		_, err = parser.ParseSeqQL(q, nil)
 	} else {
 		_, err = parser.ParseQuery(q, nil)
 	}
-	fmt.Println("returned, error:", err != nil)
+	return err
+}
+
+// childProbe runs one real parser call in a CHILD process (exhausting the goroutine stack is a
+// fatal error that recover() cannot catch). Returns "ok", "error", "stack-overflow", "timeout" or
+// "died: ...".
+func childProbe(kind, target, shape string, n int, timeout time.Duration) string {
+	ctx, cancel := context.WithTimeout(context.Background(), timeout)
+	defer cancel()
+	cmd := exec.CommandContext(ctx, os.Args[0], "-deep", strconv.Itoa(n), "-deep-kind", kind, "-deep-target", target, "-deep-shape", shape, "-out", os.TempDir())
+	cmd.Env = append(os.Environ(), "LOG_LEVEL=fatal")
+	out, err := cmd.CombinedOutput()
+	so := string(out)
+	switch {
+	case ctx.Err() != nil:
+		return "timeout"
+	case err == nil && strings.Contains(so, "probe-result: ok"):
+		return "ok"
+	case err == nil && strings.Contains(so, "probe-result: error"):
+		return "error"
+	case strings.Contains(so, "stack overflow") || strings.Contains(so, "goroutine stack exceeds"):
+		return "stack-overflow"
+	}
+	if len(so) > 300 {
+		so = so[len(so)-300:]
+	}
+	return fmt.Sprintf("died: %v: %s", err, so)
+}
+
+// deepChild: executed in the child process
+func deepChild(kind, target, shape string, n int) {
+	var q string
+	if kind == "flat" {
+		q = strings.Repeat("a:b or ", n) + "a:b"
+	} else {
+		q = nestQuery(shape, n)
+	}
+	if runTarget(target, q) != nil {
+		fmt.Println("probe-result: error")
+	} else {
+		fmt.Println("probe-result: ok")
+	}
+}
+
+// nestingProbe: the permanent regression class for the nesting limit. Boundary: limit-1 brackets
+// or NOTs put the leaf at level = limit (accepted), limit of them at limit+1 (error); 3,000,000 of
+// them must be an error with the process alive. evalModel: the byte-level models parse the
+// boundary bracket queries too (thorough tier: ~25 s per case inside Coq).
+func nestingProbe(w *casefile.Writer, evalModel bool) {
+	for _, target := range []string{"ParseQuery", "ParseSeqQL"} {
+		for _, shape := range []string{"paren", "not"} {
+			for _, n := range []int{modelMaxNesting - 1, modelMaxNesting, 3000000} {
+				in := map[string]any{"probe": "nesting", "target": target, "shape": shape, "depth": n,
+					"query": fmt.Sprintf("%q repeated %d times, then k:v (and the closing brackets)", map[string]string{"paren": "(", "not": "not "}[shape], n)}
+				var res string
+				if n <= modelMaxNesting {
+					q := nestQuery(shape, n)
+					r := guarded(func() error { return runTarget(target, q) })
+					switch {
+					case r.hung || r.panicked != nil:
+						w.Violate("panic-or-hang:"+target+":nesting", fmt.Sprintf("%s on %d nested %s: panic=%v hung=%v", target, n, shape, r.panicked, r.hung), in)
+						continue
+					case r.isErr:
+						res = "error"
+					default:
+						res = "ok"
+					}
+				} else {
+					res = childProbe("nest", target, shape, n, 120*time.Second)
+				}
+				w.Evals(1)
+				w.Count("nesting:" + target + ":" + shape + ":" + strconv.Itoa(n) + ":" + strings.SplitN(res, ":", 2)[0])
+				switch res {
+				case "ok", "error":
+				case "stack-overflow":
+					w.Violate("fatal-stack-overflow:"+target, fmt.Sprintf("%s kills the process (fatal error: stack overflow, not recoverable) on %d nested %s", target, n, shape), in)
+					continue
+				default:
+					w.Violate("deep-probe-died:"+target, "child process: "+res, in)
+					continue
+				}
+				eval := evalModel && shape == "paren" && n <= modelMaxNesting
+				w.Add(fmt.Sprintf("CNest %s %s %d%%N %d%%N %s %s", casefile.Bool(target == "ParseSeqQL"), casefile.Bool(shape == "not"), n, modelMaxNesting, casefile.Bool(res == "ok"), casefile.Bool(eval)),
+					"nesting-limit", true, in, res)
+			}
+		}
+	}
+}
+
+// flatChainProbe (thorough tier only; ~2 GB, several seconds): a FLAT chain of 10^7 OR operators
+// builds a left-deep AST and propagateNot recurses over it until the stack overflows. Known
+// finding: one fingerprint for both parsers.
+func flatChainProbe(w *casefile.Writer) {
+	const n = 10000000
+	for _, target := range []string{"ParseQuery", "ParseSeqQL"} {
+		res := childProbe("flat", target, "", n, 300*time.Second)
+		w.Evals(1)
+		w.Count("flat-chain:" + target + ":" + strings.SplitN(res, ":", 2)[0])
+		in := map[string]any{"probe": "flat-chain", "target": target, "operators": n, "query": fmt.Sprintf("%q repeated %d times, then a:b", "a:b or ", n)}
+		switch res {
+		case "ok", "error":
+		case "stack-overflow":
+			w.Violate("fatal-stack-overflow-flat-chain", fmt.Sprintf("%s kills the process (fatal error: stack overflow in propagateNot) on a flat chain of %d OR operators", target, n), in)
+		default:
+			w.Violate("flat-chain-probe-died", target+": child process: "+res, in)
+		}
+	}
 }
 
 func legacyCases(w *casefile.Writer, r *rng.R, tier string) {
